@@ -3,6 +3,9 @@ import OpacusLean.Model.Binary64
 import Mathlib.Data.List.Basic
 import Mathlib.Data.List.Range
 import Mathlib.Data.List.Nodup
+import OpacusLean.Lemmas.Sampler
+import OpacusLean.Lemmas.SamplerGrid
+import OpacusLean.Lemmas.Binary64Steps
 /-! # C09 — Poisson sampling: independent inclusion at the accounted rate, empties kept -/
 set_option linter.unusedSectionVars false
 namespace Opacus.C09
@@ -60,5 +63,208 @@ end sampler
 /-- non-vacuity: three draws over four positions, the middle batch is empty and is kept -/
 example : epoch 3 (5 : Nat) 4 (fun b i => [[1, 9, 4, 7], [8, 8, 9, 5], [0, 0, 0, 9]].getD b [] |>.getD i 0)
     = [[0, 2], [], [0, 1, 2]] := by decide
+
+
+/-- **grid_inclusion_probability** (modelling remark made precise) — `torch.rand` float32 draws lie
+on the grid `{k/M | k < M}`, `M = 2^24`; the number of grid points strictly below a threshold
+`t ∈ [0,1]` is `⌈t·M⌉`, so under uniform grid draws `P(u < t) ∈ [t, t + 1/M)`: never below the
+nominal rate, less than `2^-24` above it (`t` = `sample_rate` rounded to float32). -/
+theorem grid_inclusion_probability (M : ℕ) (hM : 0 < M) (t : ℚ) (h0 : 0 ≤ t) (h1 : t ≤ 1) :
+    let c := ((List.range M).filter (fun (k : ℕ) => decide ((k : ℚ) / M < t))).length
+    t ≤ (c : ℚ) / M ∧ (c : ℚ) / M < t + 1 / M := by
+  intro c
+  have hc : c = ⌈t * (M : ℚ)⌉₊ := grid_count t M hM h1
+  have h2 : (0 : ℚ) < M := by exact_mod_cast hM
+  have ha : t * (M : ℚ) ≤ c := by rw [hc]; exact Nat.le_ceil _
+  have hb : (c : ℚ) < t * (M : ℚ) + 1 := by
+    rw [hc]; exact Nat.ceil_lt_add_one (by positivity)
+  constructor
+  · rw [le_div_iff₀ h2]; exact ha
+  · rw [div_lt_iff₀ h2, add_mul, one_div, inv_mul_cancel₀ h2.ne']; exact hb
+
+/-- non-vacuity: 4-point grid, threshold 0.3: two points (0, 1/4) lie below, `⌈1.2⌉ = 2` -/
+example : ((List.range 4).filter (fun (k : ℕ) => decide ((k : ℚ) / (4 : ℕ) < 3 / 10))).length = 2 := by decide +kernel
+
+/-! ## Distributed sampler: shards and local batches -/
+
+/-- **shards_partition** — for every `N`, every world size `W ≥ 1` and EVERY permutation `perm` of
+`range N` (shuffled or not): the rank-strided slices `perm[r : N : W]` have sizes
+`N / W + [r < N % W]` (the sampler's `assert len(indices) == self.num_samples` never fires), are
+duplicate-free, pairwise disjoint, and together cover exactly `range N`. -/
+theorem shards_partition (perm : List Nat) (N W : Nat) (hW : 0 < W) (hperm : perm.Perm (List.range N)) :
+    (∀ r, r < W → (shard perm W r).length = numSamples N W r) ∧
+    (∀ r, (shard perm W r).Nodup) ∧
+    (∀ r₁ r₂, r₁ ≠ r₂ → List.Disjoint (shard perm W r₁) (shard perm W r₂)) ∧
+    (∀ i, i < N ↔ ∃ r, r < W ∧ i ∈ shard perm W r) := by
+  have hnd : perm.Nodup := hperm.nodup_iff.2 List.nodup_range
+  have hlen : perm.length = N := by rw [hperm.length_eq, List.length_range]
+  obtain ⟨h1, h2, h3, h4⟩ := shards_of_nodup perm W hW hnd
+  refine ⟨?_, h2, h3, ?_⟩
+  · intro r hr; rw [← hlen]; exact h1 r hr
+  · intro i; rw [← h4 i, hperm.mem_iff, List.mem_range]
+
+/-- the sizes add up: `Σ_r (N / W + [r < N % W]) = N` -/
+example : (List.range 4).map (numSamples 10 4) = [3, 3, 2, 2] := by decide
+/-- non-vacuity: a shuffled permutation of `range 7`, three ranks -/
+example : (List.range 3).map (shard [4, 2, 6, 0, 1, 5, 3] 3) = [[4, 0, 3], [2, 1], [6, 5]] := by decide
+
+section dist
+variable {R : Type} [LT R] [DecidableLT R]
+
+/-- a local batch is a duplicate-free sub-selection of the rank's shard, decided draw by draw:
+the shard element at local position `k` is selected in round `b` iff `u b k < q` -/
+theorem dist_batch_wellformed (q : R) (perm : List Nat) (W rank : Nat) (hnd : perm.Nodup) (u : Nat → R) :
+    let sh := shard perm W rank
+    let l := (batch q sh.length u).map (fun k => sh.getD k 0)
+    l.Nodup ∧ (∀ x ∈ l, x ∈ sh) ∧ (∀ k (hk : k < sh.length), sh[k] ∈ l ↔ u k < q) := by
+  intro sh l
+  have hW : (shard perm W rank).Nodup := by
+    unfold shard
+    refine List.Nodup.map_on ?_ (shardPositions_nodup _ _ _)
+    intro a ha b hb hab
+    have ha' := ((mem_shardPositions _ _ _ _).1 ha).1
+    have hb' := ((mem_shardPositions _ _ _ _).1 hb).1
+    rw [List.getD_eq_getElem (l := perm) (d := 0) ha', List.getD_eq_getElem (l := perm) (d := 0) hb'] at hab
+    exact (List.Nodup.getElem_inj_iff hnd).1 hab
+  have hb := batch_wellformed q sh.length u
+  refine ⟨?_, ?_, ?_⟩
+  · refine List.Nodup.map_on ?_ hb.2.1
+    intro a ha b hb' hab
+    have ha' := hb.2.2 a ha
+    have hb'' := hb.2.2 b hb'
+    rw [List.getD_eq_getElem (l := sh) (d := 0) ha', List.getD_eq_getElem (l := sh) (d := 0) hb''] at hab
+    exact (List.Nodup.getElem_inj_iff hW).1 hab
+  · intro x hx
+    obtain ⟨k, hk, rfl⟩ := List.mem_map.1 hx
+    have hk' := hb.2.2 k hk
+    rw [List.getD_eq_getElem (l := sh) (d := 0) hk']
+    exact List.getElem_mem hk'
+  · intro k hk
+    constructor
+    · intro hx
+      obtain ⟨k', hk', he⟩ := List.mem_map.1 hx
+      have hk'' := hb.2.2 k' hk'
+      rw [List.getD_eq_getElem (l := sh) (d := 0) hk''] at he
+      have : k' = k := (List.Nodup.getElem_inj_iff hW).1 he
+      subst this
+      exact ((inclusion_pointwise q sh.length u k').1 hk').2
+    · intro hu
+      refine List.mem_map.2 ⟨k, (inclusion_pointwise q sh.length u k).2 ⟨hk, hu⟩, ?_⟩
+      rw [List.getD_eq_getElem (l := sh) (d := 0) hk]
+
+/-- with every local batch delivered (the repaired behaviour) an epoch has exactly `steps` batches
+on every rank, so all ranks take the same number of optimizer steps -/
+theorem dist_epoch_len_repaired (steps : Nat) (q : R) (perm : List Nat) (W rank : Nat) (u : Nat → Nat → R) :
+    (distEpoch .repaired steps q perm W rank u).length = steps := by
+  simp [distEpoch]
+
+/-- as coded, the epoch is the repaired one with the empty local batches removed -/
+theorem dist_epoch_asCoded (steps : Nat) (q : R) (perm : List Nat) (W rank : Nat) (u : Nat → Nat → R) :
+    distEpoch .asCoded steps q perm W rank u
+      = (distEpoch .repaired steps q perm W rank u).filter (fun l => !l.isEmpty) ∧
+    (distEpoch .asCoded steps q perm W rank u).length ≤ steps := by
+  refine ⟨rfl, ?_⟩
+  have := List.length_filter_le (fun l : List Nat => !l.isEmpty) (distEpoch .repaired steps q perm W rank u)
+  rw [dist_epoch_len_repaired] at this
+  exact this
+
+end dist
+
+/-- **dist_drops_empty_counterexample** (finding D15) — 8 samples, 2 ranks, 3 rounds, every draw
+above the threshold: the rank delivers 0 batches as coded instead of 3 empty ones -/
+theorem dist_drops_empty_counterexample :
+    distEpoch .asCoded 3 (1 : Nat) [0, 1, 2, 3, 4, 5, 6, 7] 2 0 (fun _ _ => 5) = [] ∧
+    distEpoch .repaired 3 (1 : Nat) [0, 1, 2, 3, 4, 5, 6, 7] 2 0 (fun _ _ => 5) = [[], [], []] := by
+  decide
+
+/-! ## Empty-batch collate -/
+
+/-- **empty_collate_shape_partial** — for the documented case (an item that is a tuple / list of
+tensors and Python scalars) the empty batch has the item's structure: one `(0, *shape)` tensor of
+the element's dtype per element.
+Full statement (`∀ item, emptyCollateAsCoded item = .ok (emptyCollateSpec item)`) is false as coded:
+`empty_collate_counterexample`. -/
+theorem empty_collate_shape_partial (xs : List Item) (hflat : ∀ x ∈ xs, x.isLeaf = true) :
+    emptyCollateAsCoded (.tuple xs) = .ok (emptyCollateSpec (.tuple xs)) := by
+  rw [spec_tuple]
+  unfold emptyCollateAsCoded
+  simp only [iterate]
+  have key : xs.mapM elemSpec = some (xs.map (fun x => match x with
+      | .tensor s d => (s, d) | .scalar d => ([], d) | _ => ([], .f32))) := by
+    induction xs with
+    | nil => rfl
+    | cons x xs ih =>
+      have hx := hflat x List.mem_cons_self
+      have ih' := ih (fun y hy => hflat y (List.mem_cons_of_mem _ hy))
+      rw [List.mapM_cons, ih']
+      cases x <;> simp_all [Item.isLeaf, elemSpec]
+  rw [key]
+  simp only [List.map_map]
+  congr 2
+  apply List.map_congr_left
+  intro x hx
+  have := hflat x hx
+  cases x <;> simp_all [Item.isLeaf, emptyCollateSpec]
+
+/-- the repaired variant is the specification by definition -/
+theorem empty_collate_repaired (item : Item) : emptyCollate .repaired item = .ok (emptyCollateSpec item) := rfl
+
+/-- **empty_collate_counterexample** (finding D20) — a bare `(5,3)` tensor item gives five `(0,3)`
+tensors instead of one `(0,5,3)` tensor; dict items and nested tuples raise `TypeError` -/
+theorem empty_collate_counterexample :
+    emptyCollateAsCoded (.tensor [5, 3] .f32) = .ok (.list (List.replicate 5 (.tensor [0, 3] .f32))) ∧
+    emptyCollateSpec (.tensor [5, 3] .f32) = .tensor [0, 5, 3] .f32 ∧
+    emptyCollateAsCoded (.dict [("x", .tensor [3] .f32), ("y", .tensor [] .i64)]) = .error .typeErrorAtCollate ∧
+    emptyCollateAsCoded (.tuple [.tensor [3] .f32, .tuple [.tensor [2] .f32, .tensor [] .i64]]) = .error .typeErrorAtCollate ∧
+    emptyCollateAsCoded (.scalar .pyInt) = .error .typeErrorAtInit := by
+  refine ⟨rfl, by simp [emptyCollateSpec, DT.torch], rfl, rfl, rfl⟩
+
+/-- non-vacuity of `empty_collate_shape_partial` -/
+example : emptyCollateAsCoded (.tuple [.tensor [3, 2] .f16, .scalar .pyInt, .tensor [] .bool])
+    = .ok (.list [.tensor [0, 3, 2] .f16, .tensor [0] .i64, .tensor [0] .bool]) := rfl
+
+/-! ## Rates, epoch length, expected batch size (exact binary64) -/
+section rates
+open Opacus.Binary64
+
+/-- **rate_consistency** — the rate handed to the accountant (`1/len(dp_loader)`) equals the rate the
+sampler uses (`1/len(loader)`) iff the DP loader kept the length of the original loader
+(`int(1/(1/L)) = L`); in every case it is not below it, and strictly above when the lengths differ. -/
+theorem rate_consistency (L : ℕ) (hL : 0 < L) (hL51 : L < 2 ^ 51) :
+    (qAcc .asCoded L = qSampler L ↔ lenDP .asCoded L = L) ∧
+    (qSampler L).val ≤ (qAcc .asCoded L).val ∧
+    (lenDP .asCoded L ≠ L → (qSampler L).val < (qAcc .asCoded L).val) ∧
+    (lenDP .asCoded L = L ∨ lenDP .asCoded L + 1 = L) :=
+  ⟨qAcc_eq_iff L hL hL51, (qSampler_le_qAcc L hL hL51).1, (qSampler_le_qAcc L hL hL51).2, lenDP_bounds L hL hL51⟩
+
+theorem rate_consistency_repaired (L : ℕ) : qAcc .repaired L = qSampler L ∧ lenDP .repaired L = L := by
+  simp [qAcc, qSampler, lenDP]
+
+/-- **rate_consistency_counterexample** (finding D14) — a loader of length 93 -/
+theorem rate_consistency_counterexample :
+    lenDP .asCoded 93 = 92 ∧ qAcc .asCoded 93 ≠ qSampler 93 ∧ Binary64.lt (qSampler 93) (qAcc .asCoded 93) = true ∧
+    lenDPFloat 93 = 92 := by
+  decide +kernel
+
+/-- **ebs_is_floor_partial** — `expected_batch_size = int(N · (1/L'))` never exceeds `⌊N/L'⌋`, is at
+most one below it, and equals it whenever `L'` does not divide `N`.
+Full statement (`ebs = ⌊N/L'⌋` always) is false as coded: `ebs_counterexample`. -/
+theorem ebs_is_floor_partial (N L : ℕ) (hN : 0 < N) (hL : 0 < L) (hNb : N < 2 ^ 51) (hLb : L < 2 ^ 51) :
+    ebs .asCoded N L ≤ N / lenDP .asCoded L ∧ N / lenDP .asCoded L ≤ ebs .asCoded N L + 1 ∧
+    (N % lenDP .asCoded L ≠ 0 → ebs .asCoded N L = N / lenDP .asCoded L) :=
+  ebs_bounds N L hN hL hNb hLb
+
+/-- **ebs_counterexample** (finding D12) — `N = 98, L = 49`: `98 · (1/49)` rounds to `1.999…` and the
+expected batch size is 1 instead of 2; `N = L = 49` gives 0 (kernel-checked on `Float` too) -/
+theorem ebs_counterexample :
+    ebs .asCoded 98 49 = 1 ∧ 98 / lenDP .asCoded 49 = 2 ∧ ebs .asCoded 49 49 = 0 ∧
+    ebsFloat 98 49 = 1 ∧ ebsFloat 49 49 = 0 := by
+  decide +kernel
+
+/-- non-vacuity of the divisibility hypothesis and of the equality case -/
+example : 100 % lenDP .asCoded 7 ≠ 0 ∧ ebs .asCoded 100 7 = 14 := by decide +kernel
+example : ebs .asCoded 64 16 = 4 := by decide +kernel
+
+end rates
 
 end Opacus.C09
